@@ -46,21 +46,21 @@ type ViolationRec struct {
 
 // ReplayFile is the on-disk replay format.
 type ReplayFile struct {
-	Property  string                 `json:"property"`
-	Tier      string                 `json:"tier"`
-	Seed      uint64                 `json:"seed"`
-	Index     int                    `json:"index"`
-	Class     string                 `json:"class"`
-	Key       string                 `json:"key"`
-	Detail    string                 `json:"detail"`
-	Tapes     Tapes                  `json:"tapes"`
-	Minimised bool                   `json:"minimised"`
+	Property  string `json:"property"`
+	Tier      string `json:"tier"`
+	Seed      uint64 `json:"seed"`
+	Index     int    `json:"index"`
+	Class     string `json:"class"`
+	Key       string `json:"key"`
+	Detail    string `json:"detail"`
+	Tapes     Tapes  `json:"tapes"`
+	Minimised bool   `json:"minimised"`
 	// Regenerate: no tapes recorded (the run never ended: watchdog); replay draws them again from seed and index.
-	Regenerate bool                  `json:"regenerate,omitempty"`
-	RunHash   string                 `json:"run_hash"`
-	Config    map[string]interface{} `json:"config"`
-	Events    []string               `json:"events"`
-	GoVersion string                 `json:"go_version"`
+	Regenerate bool                   `json:"regenerate,omitempty"`
+	RunHash    string                 `json:"run_hash"`
+	Config     map[string]interface{} `json:"config"`
+	Events     []string               `json:"events"`
+	GoVersion  string                 `json:"go_version"`
 }
 
 func envInt(k string, d int) int {
